@@ -36,7 +36,7 @@ var adminVariants = []string{
 	"ok-add", "ok-update", "ok-update", "ok-remove", "minimal", "under", "dup", "dup", "foreign", "zeropower",
 	"wrongmsg", "trunc-sig", "short-pubkey", "nonce-stale", "nonce-future", "replay", "replay-direct",
 	"othersender", "direct-ok", "direct-spoof", "unknown-cmdtype", "unknown-cmd", "update-absent",
-	"add-existing", "bad-selfsign", "no-sigs",
+	"add-existing", "bad-selfsign", "no-sigs", "dup-padded", "padded-keys",
 }
 
 const keyPool = 8
@@ -290,6 +290,23 @@ func (w *world) mkAdmin(variant string, a simrt.Action, acct *account, nonce uin
 		for i := 0; i < under() && rr.Chance(1, 2); i++ {
 			add(members[i], cmd.Msg)
 		}
+	case "dup-padded":
+		// one validator listed several times under keys that differ only behind the 32nd byte
+		k := members[len(members)-1]
+		if rr.Chance(1, 2) {
+			k = members[0]
+		}
+		for i := 0; i < 2+rr.Intn(10); i++ {
+			cmd.SInfos = append(cmd.SInfos, types.SigInfo{PubKey: append(pub32(k), byte(i)), Signature: sig64(k, cmd.Msg)})
+		}
+		for i := 0; i < under() && rr.Chance(1, 2); i++ {
+			add(members[i], cmd.Msg)
+		}
+	case "padded-keys":
+		all(cmd.Msg)
+		for i := range cmd.SInfos {
+			cmd.SInfos[i].PubKey = append(cmd.SInfos[i].PubKey, byte(i), 7)
+		}
 	case "foreign":
 		for i := 0; i < under(); i++ {
 			add(members[i], cmd.Msg)
@@ -421,9 +438,12 @@ func (w *world) refAuthorised(cmdJSON []byte, claimedFrom, sender common.Address
 	}
 	seen := map[string]bool{}
 	for _, si := range cmd.SInfos {
-		if len(si.PubKey) != ed25519.PublicKeySize || len(si.Signature) != ed25519.SignatureSize {
+		// the text does not say what an over-long key or signature field means; the node reads the first 32 and
+		// 64 bytes, and so does the reference (what matters is that a validator counts once however it is written)
+		if len(si.PubKey) < ed25519.PublicKeySize || len(si.Signature) < ed25519.SignatureSize {
 			continue
 		}
+		si.PubKey, si.Signature = si.PubKey[:ed25519.PublicKeySize], si.Signature[:ed25519.SignatureSize]
 		if seen[string(si.PubKey)] {
 			continue
 		}
